@@ -31,15 +31,15 @@ Definition model_raw_fragmented (prm : sparams) (u : list smatch) (regions : lis
    reported without limit *)
 
 (* the record lies inside one fetched region, has positive length, carries the capped bytes *)
-Definition record_faithful (regions : list fregion) (max_len : N) (x : smatch) : bool :=
+Definition record_faithful (strict : bool) (regions : list fregion) (max_len : N) (x : smatch) : bool :=
   existsb (fun r =>
       negb (f_fail r) && (f_start r =? sm_base x)
-      && (0 <? sm_len x) && (sm_off x + sm_len x <=? nlen (f_mem r))
+      && (negb strict || (0 <? sm_len x)) && (sm_off x + sm_len x <=? nlen (f_mem r))
       && bytes_eqb (sm_data x) (slice (sm_off x) (sm_off x + N.min (sm_len x) max_len) (f_mem r)))
     regions.
 
-Definition limit_spec_ok (regions : list fregion) (prm : sparams) (u t : list smatch) : bool :=
-  forallb (record_faithful regions (p_match_max_length prm)) t
+Definition limit_spec_ok (strict : bool) (regions : list fregion) (prm : sparams) (u t : list smatch) : bool :=
+  forallb (record_faithful strict regions (p_match_max_length prm)) t
   && (nlen t <=? p_max_nb_matches prm)
   && forallb (fun x => memb smatch_eqb x u) t
   && (if nlen u <=? p_max_nb_matches prm then list_eqb smatch_eqb t u else true).
@@ -55,10 +55,28 @@ Definition text_occurrence (d : tdecl) (regions : list fregion) (max_len : N) (x
       && unxor_ok d (f_mem r) (sm_off x) (sm_len x) (sm_key x))
     regions.
 
+(* text strings: the unlimited list is COMPLETE — its (base, offset) pairs are the specified offsets of
+   every fetched region, in region order (what "coincide with the unlimited match set" refers to) *)
+Definition text_complete (d : tdecl) (regions : list fregion) (u : list smatch) : bool :=
+  list_eqb (pair_eqb N.eqb N.eqb)
+    (map (fun x => (sm_base x, sm_off x)) u)
+    (flat_map (fun r => if f_fail r then [] else map (fun o => (f_start r, o)) (spec_offsets d (f_mem r))) regions).
+
 Inductive lkind :=
 | KText (d : tdecl)      (* MatcherKind::Literals of a text string: fully modelled *)
 | KRaw                   (* MatcherKind::Raw: the loop of scan_single_variable is modelled, the regex is not *)
+| KRawNullable           (* a raw regex that can match the empty string (declared by the generator) *)
 | KOther.                (* Atomized: checked against the specification only *)
+
+(* known finding C14-nullable-regex-zero-length: a raw regex that can match the empty string is
+   reported with zero-length matches (libyara 4.5.5 does the same).  Class: the string is such a
+   regex, some reported match has length 0, and everything else the property asks holds. *)
+Definition kf_nullable (k : lkind) (regions : list fregion) (prm : sparams) (u t : list smatch) (rest_ok : bool) : N :=
+  match k with
+  | KRawNullable =>
+      if existsb (fun x => sm_len x =? 0) t && limit_spec_ok false regions prm u t && rest_ok then 1 else 0
+  | _ => 0
+  end.
 
 (* kind, regions (a direct scan = one region at 0), params of the limited run, the limit used for
    the "unlimited" run, U = what the string reports compiled alone without limit, T = what it reports
@@ -70,12 +88,12 @@ Definition C14_case (k : lkind) (regions : list fregion) (prm : sparams) (unl : 
   (match k with
    | KText d => list_eqb smatch_eqb t (scan_var_fragmented prm (text_matcher d) regions)
                 && list_eqb smatch_eqb u (scan_var_fragmented prm_u (text_matcher d) regions)
-   | KRaw => list_eqb smatch_eqb t (model_raw_fragmented prm u regions)
+   | KRaw | KRawNullable => list_eqb smatch_eqb t (model_raw_fragmented prm u regions)
    | KOther => true
    end,
-   limit_spec_ok regions prm u t && probe && (nlen u <? unl)
+   limit_spec_ok true regions prm u t && probe && (nlen u <? unl)
    && match k with
-      | KText d => forallb (text_occurrence d regions (p_match_max_length prm)) t
+      | KText d => forallb (text_occurrence d regions (p_match_max_length prm)) t && text_complete d regions u
       | _ => true
       end,
-   0).
+   kf_nullable k regions prm u t (probe && (nlen u <? unl))).
